@@ -114,7 +114,7 @@ func VHAvlHistBB() {
 	size := 0
 	k := vParam("K")
 	for step := 0; step < k; step++ {
-		if len(vals) == 0 || vChoose("op", 2) == 0 {
+		if len(vals) == 0 || step < vParam("WARM") || vChoose("op", 2) == 0 {
 			v := vInt("v")
 			for _, x := range vals {
 				vAssume(v != x)
@@ -209,4 +209,94 @@ func VHAvlString() {
 		}
 	}
 	vCover("avl string done")
+}
+
+// VHAvlChurn: a tree of N values (built in sorted, reversed or zig-zag order), then R rounds of
+// "remove any one value, add a new value into any gap", with the black-box check after every
+// call. Values are strictly ordered symbols, so every comparison is decided by the path
+// condition: one path per choice of positions. State that only exists after removals - recycled
+// nodes, free lists, stale cached fields - is reached here at sizes the exhaustive histories
+// do not get to.
+func VHAvlChurn() {
+	n := 2 + vChoose("n", vParam("N")-1)
+	rounds := vParam("R")
+	total := n + rounds
+	// a strictly increasing pool with room for the values added later: slot 2i+1 is an initial
+	// value, the even slots and the tail are gaps
+	pool := make([]int, 2*total+1)
+	for i := range pool {
+		pool[i] = vInt("s")
+		if i > 0 {
+			vAssume(pool[i-1] < pool[i])
+		}
+	}
+	used := make([]bool, len(pool))
+	order := make([]int, 0, n)
+	switch vChoose("pattern", 3) {
+	case 0:
+		for i := 0; i < n; i++ {
+			order = append(order, i)
+		}
+	case 1:
+		for i := n - 1; i >= 0; i-- {
+			order = append(order, i)
+		}
+	case 2:
+		for lo, hi := 0, n-1; lo <= hi; lo, hi = lo+1, hi-1 {
+			order = append(order, lo)
+			if hi != lo {
+				order = append(order, hi)
+			}
+		}
+	}
+	t := NewOrdered[int]()
+	size := 0
+	for _, i := range order {
+		t.Add(pool[2*i+1])
+		used[2*i+1] = true
+		size++
+	}
+	c01bCheck(&t, false, size, "churn: after building")
+	for r := 0; r < rounds; r++ {
+		// remove the k-th present value
+		k := vChoose("remove", size)
+		for i := range pool {
+			if used[i] {
+				if k == 0 {
+					vAssert(t.Remove(pool[i]), "churn: Remove finds a present value")
+					used[i] = false
+					size--
+					break
+				}
+				k--
+			}
+		}
+		c01bCheck(&t, false, size, "churn: after Remove")
+		// add the g-th unused pool value
+		free := 0
+		for i := range pool {
+			if !used[i] {
+				free++
+			}
+		}
+		g := vChoose("add", free)
+		for i := range pool {
+			if !used[i] {
+				if g == 0 {
+					t.Add(pool[i])
+					used[i] = true
+					size++
+					break
+				}
+				g--
+			}
+		}
+		c01bCheck(&t, false, size, "churn: after Add")
+	}
+	for i := range pool {
+		vAssert(t.Contains(pool[i]) == used[i], "churn: Contains is true exactly for the values present")
+	}
+	if n >= 4 && rounds >= 2 {
+		vCover("churn: >= 4 values, >= 2 rounds")
+	}
 }
